@@ -12,8 +12,10 @@ CONSTANTS
   ShadowRejects = FALSE
   LeakBudgetFailure = FALSE
   LoopCapOff = FALSE
+  V6Set <- V6Off
+  DetachedFresh = FALSE
   Emit = TRUE
 SPECIFICATION Spec
-INVARIANTS TypeOK WithinBudget OverBudgetIsPrivate ShadowEqualsOff EnforceIsPrefix LocalBelowW
-PROPERTIES Terminates MeasureDecreases
+INVARIANTS TypeOK WithinBudget OverBudgetIsPrivate ShadowEqualsOff EnforceIsPrefix LocalBelowW OneLedgerPerTree
+PROPERTIES Terminates MeasureDecreases ReplyIsFinal
 CHECK_DEADLOCK FALSE
